@@ -965,6 +965,11 @@ class FnTrans:
                 b_ = l_["inner"][0]
                 t_, ty_, p_ = self.expr(b_, env)
                 if l_.get("isArrow") and ty_.startswith("Option "): p_ = self.conj(p_, "%s.isSome" % t_)
+                r_ = self.strip_wrappers(s["inner"][1])
+                if self.is_state_method(r_) is not None:
+                    # x.f = obj.m(args) with f not modelled: the call still changes obj
+                    v, p = self.block([r_] + rest, env, cont, ind)
+                    return v, (("(%s) &&\n%s" % (p_, pad)) if p_ else "") + p
                 v, p = nxt(env)
                 return v, (("(%s) &&\n%s" % (p_, pad)) if p_ else "") + p
         if k == "CXXMemberCallExpr":
@@ -1003,9 +1008,27 @@ class FnTrans:
                 lt = self.job.get("var_types", {}).get(d["name"], lt)
                 ln = self.fresh(d["name"])
                 init = [c for c in d.get("inner", []) if isinstance(c, dict)]
+                sm_ = self.is_state_method(self.strip_wrappers(init[0])) if init else None
+                if sm_ is not None and sm_[1].get("ret"):
+                    # T x = obj.m(args);  m changes obj AND returns a value: (x, obj') = fn obj args…
+                    on_, spec_, args_ = sm_
+                    if on_ not in env or spec_["ret"] != lt: raise Unsupported("%s: %s = %s.%s(…)" % (self.name, d["name"], on_, spec_["fn"]))
+                    ats = []
+                    for j_, a_ in enumerate(args_):
+                        if j_ in spec_.get("skip_args", []): continue
+                        t_, ty_, p_ = self.expr(a_, env); ats.append(t_); pres.append(p_)
+                    ats += [env[v_]["lean"] for v_ in spec_.get("extra_vars", [])]
+                    call_ = "(%s %s)" % (spec_["fn"], " ".join([env[on_]["lean"]] + ats))
+                    on_ln = self.fresh(on_)
+                    lets.append("let %s : %s := %s.1" % (ln, lt, call_))
+                    lets.append("let %s : %s := %s.2" % (on_ln, env[on_]["type"], call_))
+                    env[on_] = dict(lean=on_ln, type=env[on_]["type"])
+                    env[d["name"]] = dict(lean=ln, type=lt)
+                    continue
                 if init:
                     t, ty, p = self.expr(init[0], env)
                     if ty == "SZ" and lt == "Rat" and self.job.get("sz_to_rat"): t, ty = "(SZ.toRat %s)" % t, "Rat"
+                    if lt == "Option " + ty: t, ty = "(some %s)" % t, lt      # a non-null object (e.g. an element of an id-vector) stored in a pointer variable
                     if ty != lt: raise Unsupported("%s: init type %s for %s %s" % (self.name, ty, lt, d["name"]))
                     lets.append("let %s : %s := %s" % (ln, lt, t)); pres.append(p)
                 else:
@@ -1148,6 +1171,8 @@ class FnTrans:
             return self._breakcont(env)
         if k == "ForStmt":
             return self.for_stmt(s, rest, env, cont, ind)
+        if k == "WhileStmt":
+            return self.while_stmt(s, rest, env, cont, ind)
         if k == "SwitchStmt":
             return self.switch_stmt(s, rest, env, cont, ind)
         if k == "UnaryOperator" and s.get("opcode") in ("++", "--"):
@@ -1525,6 +1550,66 @@ class FnTrans:
         if cp: pre = "(%s) &&\n%s%s" % (cp, pad, pre)
         return head + v, pre + head + p
 
+    def while_stmt(self, s, rest, env, cont, ind):
+        """`while (cond) body` without return/break in the body, at the top level of the function: `whileLoop cond body fuel_ state`
+        with an extra parameter `fuel_` of the generated function; `_pre` demands that the loop has terminated when the fuel is used up"""
+        pad = "  " * ind
+        if self._loopctx is not None or getattr(self, "_retwrap", None) or getattr(self, "_in_helper", 0):
+            raise Unsupported("%s: while loop inside another loop" % self.name)
+        parts = [c for c in s["inner"] if isinstance(c, dict)]
+        cond, body = parts[0], parts[1]
+        if self.has_return(body): raise Unsupported("%s: return inside a while loop" % self.name)
+        assigned = self.assigned_vars(body, set())
+        carried = sorted(v for v in assigned if v in env)
+        if not carried: raise Unsupported("%s: while loop without effect" % self.name)
+        ctys = [env[c]["type"] for c in carried]
+        benv = dict(env)
+        cnames = []
+        for c in carried:
+            ln = self.fresh(c); cnames.append(ln); benv[c] = dict(lean=ln, type=env[c]["type"])
+        svar = cnames[0] if len(carried) == 1 else self.fresh("st")
+        sty = " × ".join(ctys)
+        pad2 = "  " * (ind + 2)
+        unpack = self.state_unpack(svar, cnames, ctys, pad2)
+        ct, cty_, cp = self.expr(cond, benv)
+        if cty_ != "Bool": raise Unsupported("%s: while condition of type %s" % (self.name, cty_))
+        self._in_helper = getattr(self, "_in_helper", 0) + 1
+        try:
+            bv, bp = self.loop_body(body, benv, carried, ind + 2)
+        finally:
+            self._in_helper -= 1
+        used = self.vars_read(body) | self.vars_read(cond)
+        keep_all = bool(self.paths) or bool(getattr(self, "tstruct", None))
+        fixed = [(c, env[c]["lean"], env[c]["type"]) for c in env if c not in carried and (keep_all or c in used)]
+        xp_ = list(self.job.get("extra_params", {}).get(self.name, []))
+        fixed_sig = "".join("(%s : %s) " % (l, t) for _, l, t in fixed) + "".join("(%s : %s) " % (l, t) for l, t in xp_)
+        fixed_args = "".join(" " + l for _, l, t in fixed) + "".join(" " + l for l, t in xp_)
+        self.nloops += 1
+        hname = "%s_while%d" % (self.name, self.nloops)
+        up_ = unpack.replace(pad2, "  ")
+        self.helpers.append(
+            "def %s_cond %s(%s : %s) : Bool :=\n  %s%s\n\n" % (hname, fixed_sig, svar, sty, up_, ct) +
+            "def %s_cond_pre %s(%s : %s) : Bool :=\n  %s%s\n\n" % (hname, fixed_sig, svar, sty, up_, cp or "true") +
+            "def %s_body %s(%s : %s) : %s :=\n  %s%s\n\n" % (hname, fixed_sig, svar, sty, sty, up_, bv.replace("\n" + pad2, "\n  ")) +
+            "def %s_body_pre %s(%s : %s) : Bool :=\n  %s%s\n\n" % (hname, fixed_sig, svar, sty, up_, bp.replace("\n" + pad2, "\n  ")))
+        self.uses_fuel = True
+        s0 = self.state_pack([env[c]["lean"] for c in carried])
+        env2 = dict(env)
+        outnames = []
+        for c in carried:
+            ln = self.fresh(c); outnames.append(ln); env2[c] = dict(lean=ln, type=env[c]["type"])
+        if len(carried) == 1:
+            rvar, post = outnames[0], ""
+        else:
+            rvar = self.fresh("st")
+            post = self.state_unpack(rvar, outnames, ctys, pad)
+        call = "whileLoop (%s_cond%s) (%s_body%s) fuel_ %s" % (hname, fixed_args, hname, fixed_args, s0)
+        head = "let %s : %s := %s\n%s%s" % (rvar, sty, call, pad, post)
+        v, p = self.block(rest, env2, cont, ind)
+        pre = "whileLoopPre (%s_cond_pre%s) (%s_cond%s) (%s_body_pre%s) (%s_body%s) fuel_ %s &&\n%s" % (
+            hname, fixed_args, hname, fixed_args, hname, fixed_args, hname, fixed_args, s0, pad)
+        return head + v, pre + head + p
+
     def for_range(self, s, rest, env, cont, ind):
         """`for (unsigned i = e0; i < bound; ++i) body` with no `return` in the body (nesting allowed):
         `forRange (fun i state => body) (bound - e0) e0 state`, state = the variables the body assigns"""
@@ -1679,6 +1764,7 @@ class FnTrans:
             if kind in ("val", "state"): sig.append("(%s : %s)" % (ln, lt))
         extra = self.job.get("extra_params", {}).get(self.name, [])
         for (ln, lt) in list(extra) + self.this_params: sig.append("(%s : %s)" % (ln, lt))
+        sig_fuel_at = len(sig)
         # out params start as `default` locals
         pre_lets = ""
         for (cn, ln, lt, kind) in self.outs:
@@ -1695,6 +1781,7 @@ class FnTrans:
             return self.ret_tuple(None, e), "true"
         val, pre = self.block(body.get("inner", []) if self.frag_stmt is None else [self.frag_stmt], env, end, 1)
         rty = " × ".join(([self.ret_type] if self.ret_type else []) + [o[2] for o in self.outs]) or "Unit"
+        if getattr(self, "uses_fuel", False): sig.insert(sig_fuel_at, "(fuel_ : Nat)")
         out = "".join(self.helpers)
         out += "def %s %s : %s :=\n  %s%s\n\n" % (self.name, " ".join(sig), rty, pre_lets, val)
         out += "def %s_pre %s : Bool :=\n  %s%s\n\n" % (self.name, " ".join(sig), pre_lets, pre)
